@@ -30,9 +30,50 @@ pub fn convert(f: &f::Layout) -> Result<s::Layout, String> {
     adjust_repeats(&mut res, &from_table, &alias_mappings, fm)?;
   }
   
+  for sm in &res {
+    check_mapping_is_usable(sm)?;
+  }
+  
   Ok(s::Layout {
     mappings: res
   })
+}
+
+fn has_duplicate_key(keys: &Vec<KeyCode>) -> bool {
+  for i in 0..keys.len() {
+    for j in i+1..keys.len() {
+      if keys[i] == keys[j] {
+        return true;
+      }
+    }
+  }
+  return false;
+}
+
+// The mapper cannot run (it panics on) a mapping with an empty trigger or with the same key
+// twice in its trigger or output, and the event loop cannot schedule negative repeat times.
+fn check_mapping_is_usable(sm: &s::Mapping) -> Result<(), String> {
+  if sm.from.is_empty() {
+    return Err(format!("A mapping to {:?} has an empty `from`", sm.to));
+  }
+  if has_duplicate_key(&sm.from) {
+    return Err(format!("The same key appears twice in `from`: {:?}", sm.from));
+  }
+  if has_duplicate_key(&sm.to) {
+    return Err(format!("The same key appears twice in `to`: {:?} (mapping from {:?})", sm.to, sm.from));
+  }
+  match &sm.repeat {
+    s::Repeat::Special { keys, delay_ms, interval_ms } => {
+      if has_duplicate_key(keys) {
+        return Err(format!("The same key appears twice in the `repeat` keys: {:?} (mapping from {:?})", keys, sm.from));
+      }
+      if *delay_ms < 0 || *interval_ms < 0 {
+        return Err(format!("`delay_ms` and `interval_ms` must not be negative (mapping from {:?})", sm.from));
+      }
+    },
+    _ => ()
+  };
+  Ok(())
 }
 
 fn adjust_repeats<'a>(res: &mut Vec<s::Mapping>, from_table: &HashMap<FromSet, Vec<usize>>, alias_mappings: &'a HashMap<String, Vec<&'a f::AliasMapping>>, fm: &f::Mapping) -> Result<(), String> {
